@@ -81,11 +81,13 @@ fn run<T: Coords>(case: &Value) -> Option<Vec<(&'static str, Value)>> {
             let t = if tnan { f32::NAN } else { gi(case, "kk") as f32 / 64.0 };
             let cb = CubicBezier([p[0].clone(), p[1].clone(), p[2].clone(), p[3].clone()]);
             let (ev, fev, tan) = (cb.eval(t), cb.fast_eval(t), cb.tangent(t));
+            // (for a NaN parameter: do the two evaluators still say the same thing, component by component?)
+            let nanagree = ev.comps().iter().zip(fev.comps().iter()).all(|(a, b)| a.is_nan() == b.is_nan() && (a.is_nan() || a == b)) as u8;
             let endp = if t <= 0.0 { &p[0] } else { &p[3] };
             let end = (ev == *endp && fev == *endp) as u8;
             vec![("ev", json!(ev.comps().iter().map(|x| s(*x)).collect::<Vec<_>>())),
                  ("fev", json!(fev.comps().iter().map(|x| s(*x)).collect::<Vec<_>>())),
-                 ("tan", json!(T::dcomps(&tan).iter().map(|x| s(*x)).collect::<Vec<_>>())), ("end", json!(end))]
+                 ("tan", json!(T::dcomps(&tan).iter().map(|x| s(*x)).collect::<Vec<_>>())), ("end", json!(end)), ("nanagree", json!(nanagree))]
         }
         "rays" => {
             let p: Vec<T> = points(&case["P"], den);
@@ -93,7 +95,8 @@ fn run<T: Coords>(case: &Value) -> Option<Vec<(&'static str, Value)>> {
             // a direction is the difference between a point and the origin of the space (exact)
             let zero = T::make(&vec![0.0; case["P"].as_array().unwrap().len()]);
             let rays: Vec<re::geom::Ray<T, T::Diff>> = p.iter().zip(&v).map(|(p, v)| re::geom::Ray(p.clone(), v.sub(&zero))).collect();
-            let sp = BezierSpline::from_rays(rays);
+            // (every other time through an adaptor that cannot say how many rays it will yield)
+            let sp = if gi(case, "kk") % 2 == 0 { BezierSpline::from_rays(rays) } else { BezierSpline::from_rays(rays.into_iter().filter(|_| true)) };
             let t = if tnan { f32::NAN } else { gi(case, "kk") as f32 / 64.0 };
             let (ev, tan) = (sp.eval(t), sp.tangent(t));
             let endp = if t <= 0.0 { p[0].clone() } else { p.last().unwrap().clone() };
@@ -107,7 +110,9 @@ fn run<T: Coords>(case: &Value) -> Option<Vec<(&'static str, Value)>> {
             let ev = sp.eval(t);
             let tan = sp.tangent(t);
             let endp = if t <= 0.0 { &c[0] } else { c.last().unwrap() };
-            vec![("ev", json!(ev.comps().iter().map(|x| s(*x)).collect::<Vec<_>>())), ("end", json!((ev == *endp) as u8)),
+            let cb0 = CubicBezier([c[0].clone(), c[1].clone(), c[2].clone(), c[3].clone()]).eval(t);
+            let nanagree = ev.comps().iter().zip(cb0.comps().iter()).all(|(a, b)| a.is_nan() == b.is_nan()) as u8;
+            vec![("ev", json!(ev.comps().iter().map(|x| s(*x)).collect::<Vec<_>>())), ("end", json!((ev == *endp) as u8)), ("nanagree", json!(nanagree)),
                  ("stan", json!(T::dcomps(&tan).iter().map(|x| s(*x)).collect::<Vec<_>>()))]
         }
         _ => {
@@ -232,7 +237,7 @@ pub fn exec(case: &Value) -> Value {
             for k in ["ev", "fev", "tan", "stan", "answers", "errs", "out"] {
                 o.insert(k.into(), json!([]));
             }
-            for k in ["end", "maxdep", "n", "first", "last"] {
+            for k in ["end", "maxdep", "n", "first", "last", "nanagree"] {
                 o.insert(k.into(), json!(0));
             }
             o.insert("panic".into(), json!(1));
